@@ -24,7 +24,7 @@ func checkC32(p *Prog, r *Result, tier string) {
 	r.min("SH", 2)
 	r.min("UB", 1)
 	r.min("LIT", 1)
-	r.min("PUSH", 4)
+	r.min("PUSH", 5)
 	r.min("TRG", 4)
 
 	F := p.Fn("resource/plugins/cpumem.Plugin.CalculateRemap")
@@ -338,6 +338,8 @@ func checkC32(p *Prog, r *Result, tier string) {
 		})
 		r.check(lwOK && rmOK, "PUSH", DR.Name+" / the node's recorded workloads are what the manager remaps", p.pos(DR.Decl), "ListNodeWorkloads(node.Name) → rmgr.Remap(node.Name, workloads)", "the remap is not computed from the workloads recorded on this node")
 		why = "the returned parameter sets are not pushed to the engine under their own ids"
+		var pushLoop *ast.RangeStmt
+		var pushCall *ast.CallExpr
 		ast.Inspect(DR.Body, func(n ast.Node) bool {
 			rs, ok := n.(*ast.RangeStmt)
 			if !ok || rs.Key == nil || rs.Value == nil {
@@ -347,19 +349,33 @@ func checkC32(p *Prog, r *Result, tier string) {
 			if enc.objOf(rs.X) != ep || ep == nil {
 				return true
 			}
+			var push *ast.CallExpr
 			ast.Inspect(rs.Body, func(x ast.Node) bool {
 				if c, ok := x.(*ast.CallExpr); ok && enc.Callee(c) != nil && enc.Callee(c).Name() == "VirtualizationUpdateResource" && len(c.Args) == 3 {
 					if enc.objOf(c.Args[1]) == enc.objOf(rs.Key) && enc.objOf(c.Args[2]) == enc.objOf(rs.Value) {
 						why = ""
+						push = c
 					} else {
 						why = "VirtualizationUpdateResource is called with (" + exprStr(c.Args[1]) + ", " + exprStr(c.Args[2]) + "), not with the id and the parameters of the same map entry"
 					}
 				}
 				return true
 			})
+			if push != nil {
+				pushLoop, pushCall = rs, push
+			}
 			return true
 		})
 		r.check2(why, "PUSH", DR.Name+" / each parameter set is applied to the workload it was computed for", p.pos(DR.Decl), "for id, params := range result { engine.VirtualizationUpdateResource(ctx, id, params) }")
+		// every entry is applied: the loop over the answer has no exit and no skip before the engine call — one workload the
+		// engine refuses must not leave the workloads after it (map order) on cores that were just given away
+		if pushLoop != nil {
+			whyE := ""
+			if ex := loopEarlyExits(pushLoop.Body, pushCall.Pos()); len(ex) > 0 {
+				whyE = fmt.Sprintf("the loop that applies the remapped parameter sets can stop or skip an entry at %s: the workloads after a failing one keep a core set that overlaps cores just bound to another workload", p.pos(ex[0]))
+			}
+			r.check2(whyE, "PUSH", DR.Name+" / every parameter set of the answer is applied, whatever the engine said about the others", p.pos(pushLoop), "no return/break/goto in the applying loop and no continue before the engine call")
+		}
 	}
 
 	// ---- TRG: reachability
@@ -408,6 +424,34 @@ func checkC32(p *Prog, r *Result, tier string) {
 			}
 			return false
 		}
+		// a helper that changes usage on behalf of its callers is covered when every caller reaches the trigger
+		callers := map[*FuncNode][]*FuncNode{}
+		for _, fn := range p.sortedFuncs("cluster/calcium") {
+			if fn.Decl == nil || fn.Parent != nil {
+				continue
+			}
+			cs, _ := callees(fn)
+			for _, c := range cs {
+				if c != fn {
+					callers[c] = append(callers[c], fn)
+				}
+			}
+		}
+		var covered func(fn *FuncNode, depth int) bool
+		covered = func(fn *FuncNode, depth int) bool {
+			if reach(fn) {
+				return true
+			}
+			if depth > 3 || len(callers[fn]) == 0 || (fn.Obj != nil && fn.Obj.Exported()) {
+				return false
+			}
+			for _, c := range callers[fn] {
+				if !covered(c, depth+1) {
+					return false
+				}
+			}
+			return true
+		}
 		for _, fn := range p.sortedFuncs("cluster/calcium") {
 			if fn.Decl == nil || fn.Parent != nil {
 				continue
@@ -418,7 +462,7 @@ func checkC32(p *Prog, r *Result, tier string) {
 			}
 			sort.Strings(muts)
 			key := fmt.Sprintf("%s / changes node usage (%s) and can reach the remap trigger", fn.Name, strings.Join(uniqStrings(muts), ", "))
-			r.check(reach(fn), "TRG", key, p.pos(fn.Decl), "RemapResourceAndLog is reachable", "this operation changes which cores have a free share base but never triggers a remap: unbound workloads keep running on cores that are now taken (or miss cores that became free) until some other operation touches the node")
+			r.check(covered(fn, 0), "TRG", key, p.pos(fn.Decl), "RemapResourceAndLog is reachable (from it, or from every function it is a helper of)", "this operation changes which cores have a free share base but never triggers a remap: unbound workloads keep running on cores that are now taken (or miss cores that became free) until some other operation touches the node")
 		}
 		// RemapResourceAndLog -> doRemapResource under the node-operation lock
 		why := "RemapResourceAndLog does not run doRemapResource inside withNodeOperationLocked of the node"
